@@ -268,6 +268,20 @@ impl From<DynamicTable> for Decoder {
     }
 }
 
+#[cfg(all(hyperium_h3_verif, not(test)))]
+impl From<DynamicTable> for Decoder {
+    fn from(table: DynamicTable) -> Self {
+        Self { table }
+    }
+}
+
+#[cfg(hyperium_h3_verif)]
+impl Decoder {
+    pub fn verif_table(&self) -> &DynamicTable {
+        &self.table
+    }
+}
+
 #[derive(PartialEq)]
 enum Instruction {
     Insert(HeaderField),
